@@ -254,3 +254,75 @@ def discr_value(v):
         return v['discr']
     t = (v.get('discr_text') or '').replace('_', '')
     return int(t, 0)
+
+
+# ---- attribute strings as token lists for the model of the argument parser (Tokens.v) ------------------
+
+import re as _re
+
+_PUNCT = {'.': 'PDot', '=': 'PEq', ':': 'PColon', ',': 'PComma'}
+
+
+def _tok_flat(text):
+    """tokens of a bracket-free piece of attribute text -> list of Coq tok terms, or None if it does not lex"""
+    out = []
+    i = 0
+    while i < len(text):
+        c = text[i]
+        if c.isspace():
+            i += 1
+        elif c.isdigit():
+            m = _re.match(r'[0-9][0-9A-Za-z_.]*?(?=\.\.|[^0-9A-Za-z_]|$)', text[i:])
+            lit = m.group(0)
+            out.append('(KLit %s)' % lit if lit.isdigit() else 'KBadLit')
+            i += len(lit)
+        elif c.isalpha() or c == '_':
+            m = _re.match(r'[A-Za-z_][A-Za-z0-9_]*', text[i:])
+            out.append('(KIdent %s)' % cstr(m.group(0)))
+            i += len(m.group(0))
+        elif c in '"\'':
+            return None
+        else:
+            out.append('(KPunct %s)' % _PUNCT.get(c, 'POther'))
+            i += 1
+    return out
+
+
+def attr_tokens(attr_text):
+    """'#[bits([0..=1, 4], rw)]' -> (name, Coq term of type list tok) ; None when the text is not of the form #[name(...)]"""
+    m = _re.fullmatch(r'\s*#\[\s*([A-Za-z_][A-Za-z0-9_]*)\s*\((.*)\)\s*\]\s*', attr_text, _re.S)
+    if not m:
+        return None
+    name, body = m.group(1), m.group(2)
+    toks = []
+    i = 0
+    while i < len(body):
+        if body[i] == '[':
+            j = body.find(']', i)
+            if j < 0:
+                return None
+            inner = body[i + 1:j]
+            if '[' in inner:
+                return None
+            elems = [e for e in inner.split(',')]
+            if elems and elems[-1].strip() == '':
+                elems = elems[:-1]
+            ok = all(_re.fullmatch(r'\s*\d+\s*(\.\.=?\s*\d+)?\s*', e) for e in elems)     # syn must parse each element as an expression
+            if not ok:
+                toks.append('(KGroup None)')
+            else:
+                toks.append('(KGroup (Some [%s]))' % '; '.join('[%s]' % '; '.join(_tok_flat(e)) for e in elems))
+            i = j + 1
+        elif body[i] in '({':
+            toks.append('(KGroup None)')
+            return name, '[%s]' % '; '.join(toks)
+        else:
+            j = i
+            while j < len(body) and body[j] not in '[({':
+                j += 1
+            t = _tok_flat(body[i:j])
+            if t is None:
+                return None
+            toks += t
+            i = j
+    return name, '[%s]' % '; '.join(toks)
